@@ -11,11 +11,19 @@ from contextlib import contextmanager
 from .core import hx
 
 NAME_ALPHA = [b"a", b"b", b".", b"-", b"0", b" ", b"\n", b"\x80", b"\xff", b"A", b"~", b"_", b"\xc3\xa9", b"B"]
-FILE_MODES = [0o600, 0o644, 0o700, 0o755, 0o610, 0o601, 0o654, 0o641, 0o711, 0o400]
+FILE_MODES = [0o600, 0o644, 0o700, 0o755, 0o610, 0o601, 0o654, 0o641, 0o711, 0o400,
+              0o000, 0o100, 0o4755, 0o2644, 0o1644, 0o4644, 0o666, 0o777]       # no permission at all, set-uid/gid, sticky
+SPECIAL_KINDS = ["fifo", "fifo", "sock", "chr"]
+if os.geteuid() != 0:       # without privileges an unreadable file cannot be hashed: keep the owner-readable modes
+    FILE_MODES = [m for m in FILE_MODES if m & 0o400]
 
 
 def gen_name(rng, taken):
     base = [b"a", b"a.b", b"a-", b"a0", b"ab", b"A", b"dir", b"Dir", b".git", b"x y", b"n\nl", b"\xff\xfe", b"empty"]
+    if rng.random() < 0.01:
+        nm = bytes([rng.choice(b"nN\xff")]) * 255          # the longest name a directory can hold
+        if nm not in taken:
+            return nm
     for _ in range(50):
         r = rng.random()
         if r < 0.3 and taken:
@@ -49,7 +57,7 @@ def gen_tree(rng, depth=0, budget=None, opts=None):
             kids.append([nm.hex(), {"t": "L", "x": rng.choice([b"a", b"../x", b"/etc/passwd", b"dangling", nm, b".", b"sub/dir",
                                                                  bytes(rng.randrange(1, 256) for _ in range(rng.randrange(1, 9)))]).hex()}])
         elif r < 0.47 and not opts.get("no_special"):
-            kids.append([nm.hex(), {"t": "S", "m": rng.choice(FILE_MODES)}])
+            kids.append([nm.hex(), {"t": "S", "m": rng.choice(FILE_MODES), "k": rng.choice(SPECIAL_KINDS)}])
         else:
             size = rng.choice(opts.get("sizes", [0, 0, 1, 2, 5, 17, 100, 1000]))
             data = rng.choice([bytes(rng.randrange(256) for _ in range(min(size, 64))) * (size // 64 + 1), b"\0" * size, b"same" * (size // 4 + 1)])[:size]
@@ -90,8 +98,33 @@ def materialise(t, path):
     elif t["t"] == "L":
         os.symlink(bytes.fromhex(t["x"]), path)
     elif t["t"] == "S":
-        os.mkfifo(path, t["m"])
+        kind = t.get("k", "fifo")
+        try:
+            if kind == "sock":
+                os.mknod(path, stat.S_IFSOCK | 0o600)
+            elif kind == "chr":
+                os.mknod(path, stat.S_IFCHR | 0o600, os.makedev(1, 3))      # a /dev/null: needs CAP_MKNOD
+            else:
+                os.mkfifo(path, 0o600)
+        except OSError:
+            os.mkfifo(path, 0o600)
         os.chmod(path, t["m"])
+
+
+def wide_tree(rng, n=300):
+    """one directory with n entries (files, directories, links) whose names share prefixes: the sort of a large listing"""
+    kids = []
+    for i in range(n):
+        nm = rng.choice([b"n%03d", b"n%03d.d", b"N%03d", b"n-%03d"]) % i
+        r = i % 7
+        if r == 0:
+            kids.append([nm.hex(), {"t": "D", "c": [[b"x".hex(), {"t": "R", "d": (b"%d" % (i % 5)).hex(), "m": 0o644}]] if i % 14 else []}])
+        elif r == 1:
+            kids.append([nm.hex(), {"t": "L", "x": (b"n%03d" % (i - 1)).hex()}])
+        else:
+            kids.append([nm.hex(), {"t": "R", "d": (b"%d" % (i % 11)).hex(), "m": 0o755 if i % 3 == 0 else 0o644}])
+    rng.shuffle(kids)
+    return {"t": "D", "c": kids}
 
 
 @contextmanager
@@ -556,3 +589,61 @@ def gen_reread(rng, share=0.25):
 def other_spelling(path, real):
     """another way to name the same directory"""
     return real if path != real else real + b"/."
+
+
+# ---------------------------------------------------------------- reference entries, nested keys, in-memory edits
+def ref_entries(t, ids, prefix=b""):
+    """[(name, "dir"|"file", perms int, target hex)] of directory t in git's order (ids = ref_ids of the whole tree)"""
+    es = []
+    for n, ch in t["c"]:
+        nm = bytes.fromhex(n)
+        es.append((nm, "dir" if ch["t"] == "D" else "file", int(_ref_mode(ch), 8), ids[prefix + b"/" + nm if prefix else nm]))
+    return sorted(es, key=lambda e: e[0] + (b"/" if e[1] == "dir" else b""))
+
+
+def _apply_op_json(cur, op):
+    if op[0] == "rewrite":
+        next(c for p, c in _walk_nodes(cur) if list(p) == op[1])["d"] = op[2]
+    elif op[0] == "chmod":
+        next(c for p, c in _walk_nodes(cur) if list(p) == op[1])["m"] = op[2]
+    elif op[0] == "replace":
+        _set_child(cur, op[1], op[2])
+    elif op[0] == "remove":
+        _set_child(cur, op[1], None)
+    elif op[0] == "rename":
+        node = next(c for p, c in _walk_nodes(cur) if list(p) == op[1])
+        _set_child(cur, op[1], None)
+        _set_child(cur, op[1][:-1] + [op[2]], node)
+
+
+def _mem_node(n):
+    from swh.model.from_disk import Content, Directory
+    if n["t"] == "R":
+        return Content.from_bytes(mode=stat.S_IFREG | n["m"], data=bytes.fromhex(n["d"]))
+    if n["t"] == "L":
+        return Content.from_bytes(mode=stat.S_IFLNK | 0o777, data=bytes.fromhex(n["x"]))
+    if n["t"] == "S":
+        return Content.from_bytes(mode=stat.S_IFIFO | n["m"], data=b"")
+    d = Directory()
+    for nm, ch in n["c"]:
+        d[bytes.fromhex(nm)] = _mem_node(ch)
+    return d
+
+
+def apply_ops_memory(d, ops, t):
+    """the edits of mutate_tree done on the in-memory Directory d (read from tree t) through its dict interface with
+    nested '/' keys: d[b"a/b"] = node, del d[b"a/b"], Content.from_bytes"""
+    import copy
+    cur = copy.deepcopy(t)
+    for op in ops:
+        key = b"/".join(bytes.fromhex(n) for n in op[1])
+        _apply_op_json(cur, op)
+        if op[0] in ("rewrite", "chmod", "replace"):
+            d[key] = _mem_node(next(c for p, c in _walk_nodes(cur) if list(p) == op[1]))
+        elif op[0] == "remove":
+            del d[key]
+        elif op[0] == "rename":
+            node = d[key]
+            del d[key]
+            d[b"/".join(bytes.fromhex(n) for n in op[1][:-1] + [op[2]])] = node
+    return cur
